@@ -36,7 +36,7 @@ ASSUMPTIONS = [
     "tags {a,b} stand for the message tags (only used in '<'+tag and find)",
 ]
 
-FILLERS = ("", "\n", "<?x?>\n")
+FILLERS = ("", "\n", "<?x?>\n", "\n<?x?>\n")   # the last one is the library's own framing between two messages
 
 
 def draw_msg(d: Draw, length, tags=("a", "b")):
@@ -190,6 +190,8 @@ def conditions(tier):
 
     for mode in ("disabled", "threshold"):
         for f in FILLERS:
+            if f == "<?x?>\n" and not thorough:
+                continue      # quick: the declaration is covered with its leading newline
             n = 4 + len(f) + 4 + 1
             half = n // 2
             trailers = ("\n",) if (len(f) > 1 and not thorough) else ("", "\n")
@@ -206,13 +208,53 @@ def conditions(tier):
                 n = 4 + len(f) + 4 + 1
                 for c1 in range(n + 1):
                     add(4, 4, mode, 2, (f,), ("\n",), (c1, c1), 1800)
+    # the default constants of the statement (1024-byte reads, 2048-character
+    # threshold) on concrete long messages: lengths and read sizes by symbolic index
+    for mode in ("disabled", "default"):
+        out.append(Condition(f"long/{mode}", make_condition(long_message(mode), 0, 3, 0),
+                             about=f"one long message (2047..4100 characters) + a short one, read in 1024/700/2048/4096-character chunks, threshold {mode}",
+                             encodes=ENC, bounds="concrete contents, symbolic length/chunk index", timeout=900))
     return out
+
+
+def long_message(mode):
+    def body(d: Draw):
+        L = d.choice((1500, 2047, 2048, 2049, 3000, 4100), "length")
+        R = d.choice((1024, 700, 2048, 4096), "chunk")
+        if mode == "default" and L > 2048:
+            raise Reject()       # longer than the threshold: not claimed (see C08 finding)
+        m1 = "<a " + "x" * (L - 5) + "/>"
+        m2 = "<b/>"
+        stream = m1 + "\n" + m2 + "\n"
+        oracle = GroundTruthOracle([m1, m2], limit=400)
+        buf = make_buffer(oracle, ["a", "b"], None if mode == "disabled" else 2048)
+        if mode == "default":
+            # the constructor's own default must be the documented 2048
+            import indi.transport.buffer as B
+            if B.Buffer().max_buffer_size_before_frontal_cleanup != 2048:
+                return verdict(False, "default threshold is not 2048")
+        got = []
+
+        def cb(m):
+            oracle.wd.tick()
+            got.append(m)
+        pos = 0
+        try:
+            while pos < len(stream):
+                buf.append(stream[pos:pos + R])
+                pos += R
+                buf.process(cb)
+        except NoProgress:
+            return verdict(False, "process() does not terminate")
+        return verdict([t.index for t in got if t is not None] == [0, 1] and len(got) == 2,
+                       "a long message was not delivered intact")
+    return body
 
 
 def signature(cond_name, args, detail):
     tr = " ".join((detail or {}).get("trace", []))
     if "does not terminate" in tr:
         return "C02:no-termination"
-    if "None" in tr:
+    if "callback called with None" in tr:
         return "C02:callback-none"
     return "C02:" + cond_name.split("/")[-1] + ":lost-or-late"
